@@ -116,6 +116,11 @@ def walk_dest(tr: Trace, on_step=None):
                                 it.eof_size = pdu["fsize"]
                 elif prev["fields"]["qlen"] == 0:
                     sa = step_after_advancement(prev)
+                    # leaving SENDING_EOF_ACK_PDU runs the deferred NAK procedure before the PDU is looked at; if that
+                    # declares NAK Limit Reached and the handler cancels or abandons, the transaction is over and the
+                    # PDU of this call is not processed any more
+                    if prev["fields"]["step"] == 5 and any(e[0] in (11, 14) and e[3] == 7 for e in st.ob["events"]):
+                        sa = 0
                     info["sa"] = sa
                     if pdu["kind"] == codec.K_FD:
                         it.extent = max(it.extent, pdu["offset"] + len(pdu["data"]))
@@ -403,11 +408,15 @@ class LateDataCase:
     """Unacknowledged transfer whose EOF overtakes a subset of the File Data PDUs; the late data arrive at chosen
     slots relative to the check-timer expiries."""
 
-    def __init__(self, cfg: Cfg, nseg, late, slots, tail=0):
+    def __init__(self, cfg: Cfg, nseg, late, slots, tail=0, coincide=()):
         self.cfg, self.nseg, self.late, self.slots, self.tail = cfg, nseg, sorted(late), slots, tail
+        # late segments (by index) that arrive IN the state-machine call that sees their slot's expiry (slot >= 1),
+        # instead of after that expiry has been processed by a call without a PDU
+        self.coincide = set(coincide)
 
     def describe(self):
         return {"nseg": self.nseg, "late": self.late, "slots": self.slots, "check_limit": self.cfg.check_limit,
+                "coincide": sorted(self.coincide),
                 "closure": self.cfg.closure, "cktype": self.cfg.cktype, "seg": self.cfg.max_seg}
 
     def run(self):
@@ -435,7 +444,8 @@ class LateDataCase:
                     deliver(fd(k))
             deliver(campaign.pdu_ints(codec.K_EOF, h, [0] + list(c09.expected(cfg.cktype, data)) + [size, 0, 0, 0]))
             # slots[i] = number of expiries that pass before late segment i arrives
-            arrivals = sorted(zip(self.slots, self.late))
+            arrivals = sorted((s, k) for s, k in zip(self.slots, self.late) if not (k in self.coincide and s >= 1))
+            with_expiry = sorted((s, k) for s, k in zip(self.slots, self.late) if k in self.coincide and s >= 1)
             expiries = 0
             idx = 0
             while expiries <= cfg.check_limit + 1 and d.h.state.value == 1:
@@ -445,9 +455,15 @@ class LateDataCase:
                 if d.h.state.value != 1:
                     break
                 w.advance(cfg.check_ms)
-                d.sm(None)
-                while d.get() is not None:
-                    pass
+                now = [k for s, k in with_expiry if s == expiries + 1]
+                if now:
+                    for k in now:
+                        if d.h.state.value == 1:
+                            deliver(fd(k))
+                else:
+                    d.sm(None)
+                    while d.get() is not None:
+                        pass
                 expiries += 1
             d.snapshot_file([2])
             self.sides = [("dest", d.ops, d.obs)]
@@ -527,19 +543,28 @@ def remote_check_ms(tr):
 
 
 def c13_cases(tier, rng):
-    cases = []
-    for L in (1, 2, 3):
+    import itertools
+    quick = tier == "quick"
+    for L in ((1, 2, 3) if quick else (1, 2, 3, 4, 5)):
         for closure in (False, True):
-            for nseg in (1, 2, 3):
+            for nseg in ((1, 2, 3) if quick else (1, 2, 3, 4)):
                 for mask in range(1, 2 ** nseg):
                     late = [k for k in range(nseg) if mask >> k & 1]
                     slot_choices = range(0, L + 2)
-                    import itertools
                     combos = list(itertools.product(slot_choices, repeat=len(late)))
-                    if tier == "quick" and len(combos) > 6:
+                    if quick and len(combos) > 6:
                         combos = rng.sample(combos, 6)
                     for slots in combos:
-                        cfg = Cfg(mode=1, closure=closure, check_limit=L, max_seg=rng.choice([2, 4]), cktype=rng.choice([2, 3]),
-                                  check_ms=1000, disposition=rng.random() < 0.3)
-                        cases.append(LateDataCase(cfg, nseg, late, list(slots), tail=rng.choice([0, 1]) if cfg.max_seg > 1 else 0))
-    return cases
+                        # which of the late segments arrive in the very call that sees the expiry
+                        can = [k for k, s in zip(late, slots) if s >= 1]
+                        subsets = [()]
+                        if can:
+                            if quick:
+                                subsets.append(tuple(can) if rng.random() < 0.5 else (rng.choice(can),))
+                            else:
+                                subsets = [c for n in range(len(can) + 1) for c in itertools.combinations(can, n)]
+                        for co in subsets:
+                            cfg = Cfg(mode=1, closure=closure, check_limit=L, max_seg=rng.choice([1, 2, 4]), cktype=rng.choice([2, 3]),
+                                      check_ms=rng.choice([1000, 500]), disposition=rng.random() < 0.3)
+                            yield LateDataCase(cfg, nseg, late, list(slots), tail=rng.choice([0, 1]) if cfg.max_seg > 1 else 0,
+                                               coincide=co)
